@@ -1424,8 +1424,11 @@ func (g *Gen) enumMisuse() {
 				continue
 			}
 			if op.Multi {
-				ns := []int{1, 2, 3, 4, 5, 8, 16, 17, 32, 64, 65, 129, 257}
+				ns := []int{1, 2, 3, 4, 5, 8, 16, 17, 32, 64, 65, 129, 257, 513, 600}
 				for _, n := range ns {
+					if n > 129 && !rng.Bool(0.25) {
+						continue // the very long lists only in a quarter of the enumerating runs
+					}
 					for j := 0; j < n; j++ {
 						if n > 5 && j != 0 && j != n-1 && j != n/2 && j != 13%n {
 							continue // long lists: first, middle, 13th and last position
